@@ -115,12 +115,22 @@ def bothAttempted (w : World) (o : Out) : Bool :=
 
 def totalSpec (s : State) : Int := sumSpec s.olds + optSpec s.new
 
-/-- `strategy.paused`: no ReplicaSet is created; sizes that add up to spec.replicas are left alone (the new RS is
-    not grown towards the partition).  Deletion: no ReplicaSet size is written. -/
+/-- ReplicaSet identities are well formed: index -1 is the new ReplicaSet's -/
+def idxOk (s : State) : Bool := s.olds.all (fun r => r.idx != -1)
+
+/-- `strategy.paused`: no ReplicaSet is created; sizes that add up to spec.replicas are left alone (no size write:
+    the new RS is not grown towards the partition).  Deletion: no ReplicaSet size is written. -/
 def pausedScalesOnly (w : World) (o : Out) : Bool :=
   (!(normalW w && w.sel == .normal && w.s.paused && !w.s.deleting) ||
-    ((w.s.new.isSome || o.new.isNone) &&
-     (!(RV.Oracle.C17.invCore w.s && totalSpec w.s == w.s.replicas) || (noScale o && sameSizes w o)))) &&
-  (!(normalW w && w.s.deleting) || (noScale o && sameSizes w o))
+    ((!(w.s.new.isNone && idxOk w.s) || o.new.isNone) &&
+     (!(RV.Oracle.C17.invCore w.s && totalSpec w.s == w.s.replicas) || noScale o))) &&
+  (!(normalW w && w.s.deleting) || noScale o)
+
+/-- implementation-side companion (sizes are read back from the API objects): where the clause above demands
+    "no size write", no ReplicaSet has another size afterwards -/
+def pausedSizesKept (w : World) (o : Out) : Bool :=
+  (!(normalW w && w.sel == .normal && w.s.paused && !w.s.deleting &&
+      RV.Oracle.C17.invCore w.s && totalSpec w.s == w.s.replicas) || sameSizes w o) &&
+  (!(normalW w && w.s.deleting) || sameSizes w o)
 
 end RV.Oracle.DepCtl
